@@ -135,7 +135,8 @@ def explore(ctx, tier, search=False):
             # every other dataset serves its sequences from a lazy row stream (plain, or already range-restricted); the same
             # handler object answers all 32 requests of the dataset
             lazy = False
-            if di % 2 and any(v["k"] == "sq" and v["rows"] for v in spec["vars"]):
+            if pi % 2 and any(v["k"] == "sq" and v["rows"] for v in spec["vars"]):
+                # every other pair is lazy on both sides (like-named columns of other types behind two row streams);
                 # "plain" lazy sequences take selections too (the C04 findings empty result / column-vs-column are repaired)
                 lazy = "ranged" if di % 4 == 3 else "plain"
             pair.append({"spec": spec, "sx": G.ds_sexp(spec), "lazy": lazy, "app": BaseHandler(G.build(spec, lazy=lazy)),
